@@ -335,7 +335,7 @@ def check_sampled(ctx, case):
 
 
 def part_tapes(ctx):
-    n = 400 if ctx.tier == "quick" else 4000
+    n = 400 if ctx.tier == "quick" else 20000
     hyp_run(ctx, SAMPLED, lambda c: check_sampled(ctx, c), n, name="tapes")
 
 
